@@ -106,7 +106,11 @@ func checkC06(r *Run) {
 	if fall != nil {
 		r.undecided("r1", "handleRequest falls off its end", hr.Decl.End(), "expected explicit returns")
 	}
-	startKey := "cs.StartTag(" + tagName + ")"
+	csName := "cs"
+	if hr.Decl.Recv != nil && len(hr.Decl.Recv.List[0].Names) == 1 {
+		csName = hr.Decl.Recv.List[0].Names[0].Name
+	}
+	startKey := csName + ".StartTag(" + tagName + ")"
 	nExits := 0
 	for _, ex := range db.Exits[hr] {
 		if ex.Fn != ast.Node(hr.Decl) || ex.Ret == nil || ex.St.Dead {
@@ -122,11 +126,12 @@ func checkC06(r *Run) {
 		want := 0
 		why := "no reply on this path (connection error, shutdown or duplicate tag)"
 		started := ex.St.holds(startKey, true)
-		protoErr := ex.St.holds(errName+" == nil", false) && !ex.St.holds("ok", true) // err != nil and not a ConnError
+		connOK := m.resultName(hr, -1, isAssertTo(info, "p9.ConnError"))
+		protoErr := ex.St.holds(errName+" == nil", false) && !(connOK != "" && ex.St.holds(connOK, true)) // err != nil and not a ConnError
 		connErr := false
 		for _, p := range ex.St.Paths {
 			for k, v := range p {
-				if strings.HasPrefix(k, "ok") && v && ex.St.Must["p9.recv"] && !started {
+				if connOK != "" && k == connOK && v && ex.St.Must["p9.recv"] && !started {
 					// errSocket, ok := err.(ConnError); ok
 					connErr = true
 				}
@@ -162,7 +167,7 @@ func checkC06(r *Run) {
 		tagOK := tagArg == tagName && s.St.Defs[objByName(info, hr, tagName)] == ast.Node(recvCall)
 		r.check(tagOK, "r1", key+" carries the request's tag", s.Call.Pos(), "tag = the value recv returned", "the reply's tag is "+tagArg+", not the tag returned by recv for this request")
 		wArg := s.arg(1)
-		r.check(wArg == "cs.r", "r1", key+" goes to this connection", s.Call.Pos(), "writer = cs.r", "the reply is written to "+wArg)
+		r.check(wArg == csName+".r", "r1", key+" goes to this connection", s.Call.Pos(), "writer = cs.r", "the reply is written to "+wArg)
 		if s.St.holds(startKey, true) {
 			// message = result of cs.handle(m)
 			okMsg := false
@@ -559,6 +564,11 @@ func checkC14(r *Run) {
 	if wt := r.mustFunc("r2", "p9", "connState.WaitTag"); wt != nil {
 		wres := m.resolver(wt)
 		tparam := wt.Decl.Type.Params.List[0].Names[0].Name
+		// the comma-ok of the lookup in the tag table
+		regOK := m.resultName(wt, -1, func(e ast.Expr) bool {
+			ix, isIx := e.(*ast.IndexExpr)
+			return isIx && strings.HasSuffix(r.L.str(ix.X), ".tags")
+		})
 		var recvSite *Site
 		for _, b := range db.Blocking {
 			if b.Root == wt && b.Callee == "<-chan" {
@@ -571,7 +581,7 @@ func checkC14(r *Run) {
 			u := recvSite.Node.(*ast.UnaryExpr)
 			chs := wres.str(u.X)
 			okCh := strings.Contains(chs, ".tags["+tparam+"]")
-			okOk := recvSite.St.holds("ok", true)
+			okOk := regOK != "" && recvSite.St.holds(regOK, true)
 			r.check(okCh && okOk, "r2", "WaitTag blocks on the tag's channel", u.Pos(), "<-cs.tags[t] when registered", "WaitTag waits on "+chs+" (registered="+fmt.Sprint(okOk)+"), not on the channel registered for the tag")
 			// r5: nothing held while blocked
 			r.check(len(recvSite.St.MayL) == 0, "r5", "WaitTag holds no lock while blocked", u.Pos(), "tagMu released before <-ch", "WaitTag blocks while "+describeSet(recvSite.St.MayL)+" may be held: ClearTag of the flushed request (and every StartTag) would wait for the flush, which waits for them")
@@ -579,7 +589,7 @@ func checkC14(r *Run) {
 		// returns at once when not registered
 		okEarly := false
 		for _, ex := range db.Exits[wt] {
-			if ex.St.holds("ok", false) && !ex.St.Dead {
+			if regOK != "" && ex.St.holds(regOK, false) && !ex.St.Dead {
 				okEarly = true
 			}
 		}
@@ -729,7 +739,7 @@ func c14SelfWait(r *Run, m *ServerModel, rule string) {
 					ref = true
 				}
 				// the type assertion failed: not a Tflush at all
-				if strings.HasPrefix(k, "ok") && !v {
+				if !v && !strings.Contains(k, " ") {
 					// only counts if that ok comes from m.(*tflush): checked through Defs below
 					ref = ref || okFromTflushAssert(m, hr, s.St, k)
 				}
